@@ -1414,7 +1414,7 @@ def shape_arg(n, kind):
         return np.array(n, dtype=int)
     if kind == "float_array":
         return np.array(n, dtype=float)
-    if kind in ("int32_array", "uint8_array", "int16_array"):
+    if kind in ("int32_array", "uint8_array", "int16_array", "int8_array"):
         return np.array(n, dtype=kind[:-6])              # mode sizes are <= 200 in every sub-check that uses these spellings
     return [float(k) for k in n]
 
@@ -1489,8 +1489,17 @@ def prop_lhs_all_n(case, ctx):
 def tt_cases(draw, tier):
     d = draw(st.integers(2, 4 if tier == "quick" else 5))
     n = [draw(st.integers(1, 4 if tier == "quick" else 6)) for _ in range(d)]
-    return {"n": n, "n_kind": draw(st.sampled_from(["list", "int_array", "int_array", "int32_array", "uint8_array", "int16_array"])), "r": draw(st.integers(1, 5 if tier == "quick" else 7)),
+    case = {"n": n, "n_kind": draw(st.sampled_from(["list", "int_array", "int_array", "int32_array", "uint8_array", "int16_array"])), "r": draw(st.integers(1, 5 if tier == "quick" else 7)),
             "r_default": draw(st.integers(0, 5)) == 0, "kind": draw(st.sampled_from(SEED_KINDS)), "seed": draw(gen.seeds)}
+    if draw(st.integers(0, 3)) == 0:
+        # larger modes in a narrow shape array: block sizes n_k r^2 and the block start positions pass 127 / 255 (and 32767 with modes ~120, r 17)
+        big = draw(st.sampled_from(["i8", "u8", "i16"]))
+        d = draw(st.integers(2, 3))
+        case["n"] = [draw(st.integers(8, 20) if big != "i16" else st.integers(100, 127)) for _ in range(d)]
+        case["r"] = draw(st.integers(3, 5)) if big != "i16" else draw(st.integers(16, 18))
+        case["n_kind"] = {"i8": "int8_array", "u8": "uint8_array", "i16": "int16_array"}[big]
+        case["r_default"] = False
+    return case
 
 
 def check_tt_layout(ctx, out, n, r):
